@@ -11,10 +11,16 @@ import (
 	"golang.org/x/tools/go/ssa/ssautil"
 )
 
-const (
-	RepoDir    = "/repo"
-	ModulePath = "github.com/q191201771/lal"
-)
+const ModulePath = "github.com/q191201771/lal"
+
+// RepoDir is the tree under analysis: /repo for every registered check. GOSYM_REPO points a development
+// run at a scratch worktree (used to try a repair before it is committed); registered commands never set it.
+var RepoDir = func() string {
+	if d := os.Getenv("GOSYM_REPO"); d != "" {
+		return d
+	}
+	return "/repo"
+}()
 
 // Overlay maps virtual file paths under /repo to real files under /verif/harness.
 type Overlay struct {
